@@ -36,7 +36,7 @@ def parse_cases(out):
         if not t: continue
         if t[0] == 'CASE':
             cur = {'id': int(t[1]), 'kind': int(t[2]), 'pair': int(t[5]), 'onman': int(t[7]), 'euler': int(t[9]), 'nu': int(t[11]), 'nq': int(t[13]),
-                   'm': (int(t[15]), int(t[16]), int(t[17])), 'types': [int(x) for x in t[19:23]], 'bodies': [], 'jcol': {}, 'coords': [], 'ncol': {},
+                   'm': (int(t[15]), int(t[16]), int(t[17])), 'types': [int(x) for x in t[19:23]], 'extra': int(t[24]), 'rowoffset': int(t[26]), 'bodies': [], 'jcol': {}, 'coords': [], 'ncol': {},
                    'out': collections.OrderedDict(), 'fa': [], 'gcol': {}, 'pqcol': {}, 'head': line}
         elif t[0] == 'SKIP': skipped += 1; cur = None
         elif cur is None: continue
@@ -204,7 +204,7 @@ def correspondence(ctx, exes, ncases, seed_offset=0):
         results[ci][lab] = (parse_floats(l), exp)
     hist = collections.Counter(); nontriv = 0; dis = []; incons = []; ncmp = 0; biasbad = []
     for c, res in zip(cases, results):
-        key = KNAMES[c['kind']] + (':' + PAIRS[c['pair']].split('(')[0] if c['kind'] <= 7 else '') + (':onmanifold' if c['onman'] else '')
+        key = KNAMES[c['kind']] + (':' + PAIRS[c['pair']].split('(')[0] if c['kind'] <= 7 else '') + (':onmanifold' if c['onman'] else '') + (':with-second-constraint' if c['extra'] else '')
         hist[key] += 1
         ncmp += len(res) + 2
         if any(abs(x) > 1e-6 for x in c['out'].get('VERR', []) + c['out'].get('AERR', [])): nontriv += 1
@@ -286,7 +286,7 @@ def search(ctx, exe, n):
             d = {'kind': int(t[1]), 'pair': int(t[4]), 'onman': int(t[6]), 'line': l}
             for i in range(7, len(t) - 1, 2): d[t[i]] = float(t[i + 1])
             rows.append(d)
-    worst = collections.defaultdict(float); nfail = 0; known = collections.Counter()
+    worst = collections.defaultdict(float); nfail = 0; known = collections.Counter(); reported = set()
     for d in rows:
         k = d['kind']; offBW = k in (1, 2) and not d['onman']
         for name, tol in (('e_G', EXACT_TOL), ('e_adj', EXACT_TOL), ('e_mulG', EXACT_TOL), ('e_dq', FD_TOL), ('e_du', FD_TOL), ('e_Pq', FD_TOL), ('e_bias', EXACT_TOL)):
@@ -299,7 +299,9 @@ def search(ctx, exe, n):
             else: key = 'impl:%s:%s' % (name, KNAMES[k])
             if key in (KEY_BALL, KEY_NOSLIP, KEY_BIAS): known[key] += 1
             else: nfail += 1
-            ctx.report(key, 'C07 search: %s = %.3g exceeds %.1g on %s' % (name, v, tol, l), {'replay_cmd': '%s search %d %d' % (exe, ctx.seed, n), 'failing_input': d['line']})
+            if key in reported: continue          # one replay per distinct failure kind (the first failing input)
+            reported.add(key)
+            ctx.report(key, 'C07 search: %s = %.3g exceeds %.1g on %s' % (name, v, tol, d['line']), {'replay_cmd': '%s search %d %d' % (exe, ctx.seed, n), 'failing_input': d['line']})
     ctx.extra['search'] = {'systems': len(rows), 'predicate_evaluations': int(done[0].split()[1]) if done else 0, 'unexpected_failures': nfail,
                            'known_finding_hits': dict(known), 'worst_residual_among_passing': dict(worst), 'fd_tol': FD_TOL, 'exact_tol': EXACT_TOL}
     if not rows: ctx.broken.append(('search:C07', 'search produced no rows: ' + (out + err)[-300:]))
@@ -309,13 +311,13 @@ def run(ctx):
     ctx.coq_props(PROPS)
     exes = build_sides(ctx)
     if exes:
-        correspondence(ctx, exes, 260 if ctx.tier == 'quick' else 2600)
+        correspondence(ctx, exes, 650 if ctx.tier == 'quick' else 6500)
     sx = build_search(ctx)
     if sx:
         witnesses(ctx, sx)
-        search(ctx, sx, (2000 if ctx.broken else 78) if ctx.tier == 'quick' else 3000)
+        search(ctx, sx, (2600 if ctx.broken else 260) if ctx.tier == 'quick' else 5200)
     ctx.cov['rule'] = ('correspondence: random 5-body trees (Ground + 4; 10 mobilizer types; quaternion or Euler), one constraint of each of the 13 first-wave kinds in turn on a random '
-                       'body pair (different branches / ancestor-descendant / with Ground, both orders; NoSlip1D with a third case body), random violated state and every third round projected onto '
+                       'body pair (different branches / ancestor-descendant / with Ground, both orders; NoSlip1D with a third case body), every other round a second one-row constraint in the same system so that the rows sit at an offset (row assembly of G), random violated state and every third round projected onto '
                        'the manifold, random udot and multipliers; perr, verr, aerr, forces from multipliers, every column of G, G*u, G^T*lambda compared (rel 1e-9 of the vector scale, abs 1e-10); '
                        'non-trivial = some velocity/acceleration error component above 1e-6; distinct by random draw')
     ctx.assumptions += ['theorems are over the reals (ROps); binary64 rounding is covered only by the tolerance-based correspondence',
